@@ -34,6 +34,11 @@ Proof.
 Qed.
 Lemma v4_eq_iff a b : wf 32 a -> wf 32 b -> gen_v4_eq a b = Ok true <-> addr a = addr b /\ plen a = plen b.
 Proof. intros. rewrite gen_v4_eq_ok, ok_true_iff by assumption. apply eq_ref_iff. Qed.
+Lemma v4_ne_is_not_eq a b : wf 32 a -> wf 32 b ->
+  (gen_v4_ne a b = Ok true <-> gen_v4_eq a b = Ok false) /\ (gen_v4_ne a b = Ok false <-> gen_v4_eq a b = Ok true).
+Proof.
+  intros. rewrite gen_v4_ne_ok, gen_v4_eq_ok by assumption. destruct (eq_ref a b); cbn; split; split; intros E; (reflexivity || discriminate E).
+Qed.
 Lemma v4_gt_is_flipped_lt a b : wf 32 a -> wf 32 b -> gen_v4_gt a b = gen_v4_lt b a.
 Proof. intros. rewrite gen_v4_gt_ok, gen_v4_lt_ok, gt_ref_lt by assumption. reflexivity. Qed.
 Lemma v4_longest_match a b : wf 32 a -> wf 32 b -> netw 32 a = netw 32 b -> plen a < plen b -> gen_v4_lt a b = Ok true.
@@ -91,6 +96,11 @@ Proof.
 Qed.
 Lemma v6_eq_iff a b : wf 128 a -> wf 128 b -> gen_v6_eq a b = Ok true <-> addr a = addr b /\ plen a = plen b.
 Proof. intros. rewrite gen_v6_eq_ok, ok_true_iff by assumption. apply eq_ref_iff. Qed.
+Lemma v6_ne_is_not_eq a b : wf 128 a -> wf 128 b ->
+  (gen_v6_ne a b = Ok true <-> gen_v6_eq a b = Ok false) /\ (gen_v6_ne a b = Ok false <-> gen_v6_eq a b = Ok true).
+Proof.
+  intros. rewrite gen_v6_ne_ok, gen_v6_eq_ok by assumption. destruct (eq_ref a b); cbn; split; split; intros E; (reflexivity || discriminate E).
+Qed.
 Lemma v6_gt_is_flipped_lt a b : wf 128 a -> wf 128 b -> gen_v6_gt a b = gen_v6_lt b a.
 Proof. intros. rewrite gen_v6_gt_ok, gen_v6_lt_ok, gt_ref_lt by assumption. reflexivity. Qed.
 Lemma v6_longest_match a b : wf 128 a -> wf 128 b -> netw 128 a = netw 128 b -> plen a < plen b -> gen_v6_lt a b = Ok true.
